@@ -1,5 +1,6 @@
 use vstd::prelude::*;
 verus! {
+pub uninterp spec fn vac_choice(i: int) -> bool;
 // 16-bit quantities on the wire: big-endian (Modbus data) and little-endian (RTU CRC trailer)
 pub open spec fn be16(s: Seq<u8>, i: int) -> int { s[i] as int * 256 + s[i + 1] as int }
 pub open spec fn le16(s: Seq<u8>, i: int) -> int { s[i] as int + s[i + 1] as int * 256 }
@@ -43,9 +44,6 @@ pub mod shims_nondet {
 }
 
 // (vstd already declares core::time::Duration as an external type)
-// used only by the vacuity run: every `assert(false)` probe sits under its own arbitrary condition, so that a probe that fails
-// (as it must) does not make the code after it unreachable for the next probe
-pub uninterp spec fn vac_choice(i: int) -> bool;
 pub uninterp spec fn nanos(d: std::time::Duration) -> int;
 #[verifier::external_body]
 pub broadcast proof fn axiom_nanos_nonneg(d: std::time::Duration) ensures #[trigger] nanos(d) >= 0 { }
@@ -607,33 +605,35 @@ pub fn iter(&self) -> (r: AddressIterator)
         AddressIterator::new(self.start, self.count)
     }
 
+// [C03] empty or address-overflowing ranges are rejected here too: the fields of AddressRange are public, so a value that did not come
+// from try_from may reach the request API
 pub fn of_read_bits(self) -> (r: Result<ReadBitsRange, InvalidRange>)
     ensures
-        r is Ok <==> self.count <= 2000,   // limit taken from the property text, not from constants.rs
+        r is Ok <==> self.wf() && self.count <= 2000,   // limit taken from the property text, not from constants.rs
         r is Ok ==> r->Ok_0.inner == self,
-        r is Err ==> r->Err_0 == InvalidRange::CountTooLargeForType(self.count, 2000),
+        (self.wf() && r is Err) ==> r->Err_0 == InvalidRange::CountTooLargeForType(self.count, 2000),
 {
         Ok(ReadBitsRange {
-            inner: self.limited_count(crate::constants::limits::MAX_READ_COILS_COUNT)?,
+            inner: (match self.limited_count(crate::constants::limits::MAX_READ_COILS_COUNT) { Ok(v__) => v__, Err(e__) => { return Err(e__) } }),
         })
     }
 
 pub fn of_read_registers(self) -> (r: Result<ReadRegistersRange, InvalidRange>)
     ensures
-        r is Ok <==> self.count <= 125,
+        r is Ok <==> self.wf() && self.count <= 125,
         r is Ok ==> r->Ok_0.inner == self,
-        r is Err ==> r->Err_0 == InvalidRange::CountTooLargeForType(self.count, 125),
+        (self.wf() && r is Err) ==> r->Err_0 == InvalidRange::CountTooLargeForType(self.count, 125),
 {
         Ok(ReadRegistersRange {
-            inner: self.limited_count(crate::constants::limits::MAX_READ_REGISTERS_COUNT)?,
+            inner: (match self.limited_count(crate::constants::limits::MAX_READ_REGISTERS_COUNT) { Ok(v__) => v__, Err(e__) => { return Err(e__) } }),
         })
     }
 
 pub fn limited_count(self, limit: u16) -> (r: Result<Self, InvalidRange>)
     ensures
-        r is Ok <==> self.count <= limit,
+        r is Ok <==> self.wf() && self.count <= limit,
         r is Ok ==> r->Ok_0 == self,
-        r is Err ==> r->Err_0 == InvalidRange::CountTooLargeForType(self.count, limit),
+        (self.wf() && r is Err) ==> r->Err_0 == InvalidRange::CountTooLargeForType(self.count, limit),
 {
         if self.count > limit {
             return Err(InvalidRange::CountTooLargeForType(self.count, limit));
